@@ -11,6 +11,7 @@ import (
 	"go.lsp.dev/uri"
 
 	"github.com/juev/hledger-lsp/internal/analyzer"
+	"github.com/juev/hledger-lsp/internal/ast"
 	"github.com/juev/hledger-lsp/internal/cli"
 	"github.com/juev/hledger-lsp/internal/formatter"
 	"github.com/juev/hledger-lsp/internal/include"
@@ -247,7 +248,7 @@ func (s *Server) publishDiagnostics(ctx context.Context, docURI protocol.Documen
 	resolved, loadErrors := s.loader.LoadFromContent(path, content)
 	s.resolved.Store(docURI, resolved)
 
-	diagnostics := s.analyze(content)
+	diagnostics := s.analyze(content, resolved)
 
 	for _, err := range loadErrors {
 		severity := protocol.DiagnosticSeverityError
@@ -285,7 +286,7 @@ func (s *Server) publishDiagnostics(ctx context.Context, docURI protocol.Documen
 	})
 }
 
-func (s *Server) analyze(content string) []protocol.Diagnostic {
+func (s *Server) analyze(content string, resolved *include.ResolvedJournal) []protocol.Diagnostic {
 	journal, parseErrs := parser.Parse(content)
 
 	diagnostics := make([]protocol.Diagnostic, 0, len(parseErrs))
@@ -311,6 +312,24 @@ func (s *Server) analyze(content string) []protocol.Diagnostic {
 	if s.workspace != nil {
 		external.Accounts = s.workspace.GetDeclaredAccounts()
 		external.Commodities = s.workspace.GetDeclaredCommodities()
+	} else if resolved != nil && len(resolved.Files) > 0 {
+		// no workspace: declarations made in included files count as well
+		external.Accounts = make(map[string]bool)
+		external.Commodities = make(map[string]bool)
+		for _, path := range resolved.FileOrder {
+			included, ok := resolved.Files[path]
+			if !ok {
+				continue
+			}
+			for _, dir := range included.Directives {
+				switch d := dir.(type) {
+				case ast.AccountDirective:
+					external.Accounts[d.Account.Name] = true
+				case ast.CommodityDirective:
+					external.Commodities[d.Commodity.Symbol] = true
+				}
+			}
+		}
 	}
 
 	var result *analyzer.AnalysisResult
